@@ -7,12 +7,13 @@ package mavl
 import (
 	"reflect"
 	"sort"
-	"sync"
 	"unsafe"
 
 	dbm "github.com/33cn/chain33/common/db"
 	mavl "github.com/33cn/chain33/system/store/mavl/db"
 )
+
+func verifAlloc[T any](p **T) { *p = new(T) }
 
 // VerifSetDB replaces the database object of a Store (BaseStore.db is unexported in another
 // package, hence reflection). Used to put a thin adapter around the in-memory backend.
@@ -26,7 +27,8 @@ func VerifSetDB(s *Store, db dbm.DB) {
 // the in-memory backend, which cannot be closed and reopened). The caller drops the node cache
 // and the package-global caches of mavl/db.
 func VerifRestart(old *Store) *Store {
-	n := &Store{old.BaseStore, &sync.Map{}, old.treeCfg}
+	n := &Store{BaseStore: old.BaseStore, treeCfg: old.treeCfg}
+	verifAlloc(&n.trees) // *sync.Map, or its instrumented counterpart when mavl.go is rewritten
 	mavl.InitGlobalMem(n.treeCfg)
 	return n
 }
